@@ -28,8 +28,11 @@ LEVEL_TEXT = (
     "handler, plus asynchronous BaseExceptions and line-step interrupts. After each injection the identical "
     "fault-free call is repeated and compared with the pre-fault reference (and, sampled, with a fresh interpreter)."
 )
-LEVEL_NOTE = "Exceptions are compared by exact type and args; the follow-up call is compared by result and event digests."
-TECHNIQUE = "deterministic simulation: exception injection at every call index of every actor, follow-up run equality, line-step interrupts"
+LEVEL_NOTE = ("Exceptions are compared by exact type and args; the follow-up call is compared by result and event digests, and the "
+    "process-wide settings (numpy error state and print options, warning filters, logging and the caller's logger) are compared "
+    "before/after every run in which a user callable raised. Also injected: a numpy overflow inside the objective/gradient while "
+    "the caller runs under np.errstate(over='raise') (the FloatingPointError must reach the caller).")
+TECHNIQUE = "deterministic simulation: exception injection at every call index of every actor (raised exceptions and numpy overflow under the caller's error state), follow-up run equality, process-wide settings before/after, line-step interrupts"
 DESIGN_REF = "DESIGN.md 4.11"
 BUDGET = {
     "quick": {"plans": 500, "wall": 90, "chunk": 4},
